@@ -18,7 +18,7 @@ COMMON_ASSUMPTIONS = [
     "usize counters are modelled as unbounded N; the 2^64 overflow branches of inc_strong/inc_weak are not modelled",
 ]
 
-CORE = ["corpus", "bfs_c3", "bfs_c2", "rand_cw", "rand_cwf"]
+CORE = ["corpus", "bfs_c3", "bfs_c2", "shp4", "shp3", "rand_cw", "rand_cwf"]
 API = ["bfs_a", "rand_cwa"]     # the handle-consuming API inside adoption graphs (make_mut drops a handle too)
 DISC_ONLY = {"C01", "C02", "C03", "C05", "C06"}
 
@@ -39,7 +39,7 @@ PROPS = {
                 fields={"kind", "res", "Dseq", "Dset", "obs", "strong", "weak", "freed", "live"},
                 oracles={"C05", "C06", "C01", "C02", "fault", "C10"}, noadopt_only=True),
     "C08": dict(statement_status="PROVED: tables_consistent (wf, symmetric, both ends alive, Loopback = self) in every configuration; adopt_spec / unadopt_counts (exact deltas, saturating); release_links_TblInv / purge_dying_TblInv (records of a dying object disappear). The ledger form (records change ONLY by adopt/unadopt or death) is the frame theorem of Inv/TablesFrame.v when present.", streams=CORE + ["rand_cwa", "rand_cwo"], fields={"kind", "tables"}, oracles={"C08"}),
-    "C09": dict(statement_status="PROVED at the atomic-function level and for Rc::drop as a whole: cycle_refs_perm, orphaned_cycle_perm, drop_strong_perm (two table orders and two oracles), drop_cycle_oracle_indep; plus every Inv theorem quantifies over the oracle. A lockstep simulation of whole runs is not claimed (destructor order inside a group legitimately differs).", streams=["corpus", "rand_cwf"], fields={"kind", "Dset", "strong", "weak", "obs"}, oracles=set()),
+    "C09": dict(statement_status="PROVED at the atomic-function level and for Rc::drop as a whole: cycle_refs_perm, orphaned_cycle_perm, drop_strong_perm (two table orders and two oracles), drop_cycle_oracle_indep; plus every Inv theorem quantifies over the oracle. A lockstep simulation of whole runs is not claimed (destructor order inside a group legitimately differs).", streams=["corpus", "shp4", "shp3", "rand_cwf"], fields={"kind", "Dset", "strong", "weak", "obs"}, oracles=set()),
     "C10": dict(statement_status="PROVED: act_inv (every action incl. nested collections from destructors preserves Inv under act_safe), steps_inv / steps_no_fault (Inv at every re-entry point). RefCell borrow flags are not modelled: 'no borrow conflict' rests on the harness (unexpected-panic oracle) only.", streams=["corpus", "rand_cws", "rand_cwsf"],
                 fields={"kind", "Dset", "strong", "weak", "tables", "freed", "res", "obs", "live"},
                 oracles={"C10", "C01", "C02", "C03", "C05", "C06", "fault"}),
@@ -149,8 +149,10 @@ def c07_std(tier, seed):
 def c09_layouts(tier, seed):
     """same fully-recorded histories under several heap layouts"""
     n_hist, n_lay = (400, 4) if tier == "quick" else (4000, 24)
+    shp = _lines_of("shp4", tier, seed)
     lines = [l for l in _lines_of("rand_cwf", tier, seed)][:n_hist] + \
-            [l for l in S.corpus_lines() if "|A|" in l][:300]
+            [l for l in S.corpus_lines() if "|A|" in l][:300] + \
+            shp[::(8 if tier == "quick" else 4)]          # every fully recorded 4-object shape, one order
     base = P.run_impl(lines, pad=0)
     hits = []
     digests = 0
